@@ -19,6 +19,7 @@ package main
 
 import (
 	"fmt"
+	"runtime/debug"
 	"sort"
 	"strings"
 	"sync"
@@ -68,10 +69,17 @@ func spec(maxGas int64) chainx.Spec {
 	s := chainx.Spec{Keys: keys, Fund: 1_000_000_000_000, MaxGas: maxGas}
 	s.GenesisTxs = []std.Tx{{
 		Msgs:       []std.Msg{chainx.AddPkg(A.Addr, stPath, map[string]string{"st.gno": realmSt})},
-		Fee:        std.NewFee(100_000_000, std.NewCoin("ugnot", 1_000_000)),
+		Fee:        std.NewFee(genGas(maxGas), std.NewCoin("ugnot", 1_000_000)),
 		Signatures: []std.Signature{{}},
 	}}
 	return s
+}
+
+func genGas(maxGas int64) int64 {
+	if maxGas > 0 && maxGas < 100_000_000 {
+		return maxGas // the block gas limit also bounds GasWanted of genesis txs
+	}
+	return 100_000_000
 }
 
 type msgDef struct {
@@ -291,9 +299,9 @@ func (cd caseDef) run() {
 		class = "failed:" + errStr(ox.res)
 		if strings.Contains(ox.res.Log, "out of gas") {
 			class += ":oog"
-			if strings.Contains(ox.res.Log, "block") {
-				class = "failed:block-gas"
-			}
+		}
+		if strings.Contains(ox.res.Log, "block gas") {
+			class = "failed:block-gas"
 		}
 	}
 	r.Outcome(class)
@@ -336,8 +344,10 @@ func (cd caseDef) run() {
 		return
 	}
 	// (b) follow-ups
-	if class == "failed:block-gas" {
-		return // the block is out of gas for everyone afterwards; nothing to compare
+	if cd.maxGas != 0 {
+		// in a gas-limited block T and its twin legitimately leave different amounts of block gas, so
+		// follow-ups in the same block are not comparable; cache traces are covered by the unlimited cases
+		return
 	}
 	fx, fw := append(followUps(X), followUps2(X)...), append(followUps(W), followUps2(W)...)
 	for i := range fx {
@@ -452,6 +462,7 @@ func head(s []string, n int) []string {
 }
 
 func main() {
+	debug.SetGCPercent(400)
 	r = vk.New("model_checking")
 	r.SetBudget(150*time.Second, 25*time.Minute)
 	var cases []caseDef
